@@ -6,11 +6,12 @@ import (
 	"fmt"
 	"hash/crc32"
 	"strings"
+	"time"
 )
 
 func baseOpts() GenOpts {
 	o := GenOpts{MaxUnits: 10, MinUnits: 1, MaxFiles: 3, MaxStmts: 3, MaxRows: 4, MaxCols: 10, MaxTables: 3,
-		IgnorableGap: 6, Rare: true, HeaderFlags: true}
+		IgnorableGap: 6, Rare: true, HeaderFlags: true, Bulk: 400}
 	o.UnitWeights = [numUnitKinds]int{uTxXID: 6, uTxCommit: 3, uDDL: 2, uAutoRows: 2, uStmtDML: 1,
 		uTxRollback: 1, uUnknownStmt: 1, uIgnorable: 1, uRotate: 1}
 	o.Prof = genProfile{MaxStr: 24}
@@ -36,6 +37,10 @@ func genPolicy(s *Stream, p *AttemptPlan) {
 	p.ForeignCtx = s.Chance(1, 4)
 	p.WriteYield = s.Chance(1, 6)
 	p.SkipErrorCalls = s.Chance(1, 10) // a caller that goes straight to the next Stream call
+	if s.Chance(1, 8) {
+		p.IdleAt = s.N(30)
+		p.IdleFor = []time.Duration{11 * time.Minute, time.Hour, 25 * time.Hour, 40 * time.Second}[s.N(4)]
+	}
 	p.OpenCk = s.Weighted(3, 2, 1)
 	p.SetErrVariant = s.Weighted(2, 1, 1)
 }
@@ -510,6 +515,8 @@ func fillFault(s *Stream, h *History, kind stopKind, at int, p *AttemptPlan) {
 			// garbage from the first byte on (a proxy writing text into the stream ...)
 			p.Stream.FirstByte = byte(1 + s.N(0xfd))
 		}
+		// what follows the malformed packet: the rest of the stream, or the end of it
+		p.Stream.After = s.Weighted(5, 1, 1, 1)
 		secondGarbage(s, &p.Stream)
 	case stopUnsupportedEvent:
 		p.Stream = StreamPlan{Kind: kind, AtPacket: at, BadType: []byte{evRowsQuery, evIntVar, evRand}[s.N(3)]}
